@@ -69,6 +69,29 @@ def presend_schedules(rnd, n):
     return out
 
 
+def permit_schedules(rnd, n):
+    """concurrency_limit_per_connection(1) x graceful shutdown: two or three calls on one connection, so all but the first wait for a
+    permit; the signal fires while they wait; handlers are then released in order.  Every one of them had reached the server before
+    the signal and is served."""
+    out = []
+    for i in range(n):
+        ncalls = 2 + i % 2
+        calls = [{'k': k, 'c': 1, 'items': rnd.choice([0, 0, 1, 2])} for k in range(1, ncalls + 1)]
+        steps = [{'op': 'offer', 'c': 1, 'k': 0}] + [{'op': 'send', 'c': 0, 'k': c['k']} for c in calls]
+        if i % 4 == 3:      # a second connection that is busy too
+            calls.append({'k': 9, 'c': 2, 'items': 1})
+            steps += [{'op': 'offer', 'c': 2, 'k': 0}, {'op': 'send', 'c': 0, 'k': 9}]
+        steps.append({'op': 'fire', 'c': 0, 'k': 0})
+        order = [c for c in calls]
+        if i % 5 == 4:
+            rnd.shuffle(order)      # gates released out of admission order: a released gate is remembered until its handler runs
+        for c in order:
+            steps += [{'op': 'release', 'c': 0, 'k': c['k']}] * (c['items'] + 1)
+        rq, wq, pend = rnd.choice([(65536, 65536, 0), (7, 2, 3), (64, 9, 2)])
+        out.append({'class': 'waiting_for_a_permit', 'calls': calls, 'steps': steps, 'shim': {'rq': rq, 'wq': wq, 'pend': pend}, 'limit': 1})
+    return out
+
+
 def timeout_schedules(rnd, n):
     """Server::timeout x graceful shutdown x streaming calls: the request timeout (300 ms) bounds the handler future only, so a
     response stream that is still being produced long after the signal (wait steps of 1 s) must run to completion."""
@@ -163,8 +186,12 @@ def check(prop, tier, seed):
     stims += biased_schedules(rnd, 2000 if tier == 'thorough' else 300)
     stims += timeout_schedules(rnd, 600 if tier == 'thorough' else 100)
     stims += presend_schedules(rnd, 120 if tier == 'thorough' else 24)
+    permits = permit_schedules(rnd, 200 if tier == 'thorough' else 40)
     for i, st in enumerate(stims):      # a third of the servers get a tower layer after their builder options (Server::layer must keep them)
         st['layer'] = i % 3 == 1
+        if i % 4 == 2:      # a quarter of the servers admit one request per connection at a time (concurrency_limit_per_connection)
+            st['limit'] = 1
+    stims += permits
     ev, path = simple.run_lab('shutdown', stims, tag, 'schedules')
     simple.validate(prop, 'Trace_Shutdown', verdict, ev, path, 'schedules', cov, clause_filter=lambda c: c.startswith('C13.') or c in ('NoPanic', 'NoHang'))
     mech_validate(verdict, cov, ev, tag, 'schedules')
